@@ -6,7 +6,7 @@ Tie: generated barrier programs run on the real library under the schedule contr
 (harness/lib_interp.c); every trace is (1) replayed through the extracted model (labels, hook values,
 barrier words incl. the sleep stack's links before every step) and (2) judged by an independent oracle of
 the property on the C/R lines of the trace (call/return order, return values, arrival counters)."""
-import os, re, json
+import os, re, json, shutil
 import vlib, trace
 
 VF = ["Barrier/BarrierModel.v"]
@@ -334,8 +334,9 @@ def replay_body(r, msg, model=None):
 def run(ctx):
     broken, log = ctx.prove("Properties_C06.v", "Properties_C06")
     exe, drv = build(ctx)
+    shutil.rmtree(os.path.join(ctx.dir, "runs"), ignore_errors=True)     # traces of earlier runs
     corpus = load_corpus()
-    n_grid, n_racer = (400, 200) if not ctx.thorough else (9000, 4000)
+    n_grid, n_racer = (400, 200) if not ctx.thorough else (7000, 3000)
     cases = corpus + gen_cases(ctx, n_grid, n_racer)
     results = []
     CH = 400
